@@ -229,6 +229,10 @@ def lower (c : Nat) : Nat := if 65 ≤ c && c ≤ 90 then c + 32 else c
 def specialWords : List Str :=
   [[105,110,102], [110,97,110], [105,110,102,105,110,105,116,121], [115,110,97,110]]
 
+/-- non-ASCII characters the generators use that are neither digits nor white space for Python's
+float()/Decimal() (é, U+10000, U+FFFF); other non-ASCII characters stay outside the fragment -/
+def inertChar (c : Nat) : Bool := c = 233 || c = 65536 || c = 65535
+
 def lexNum (s0 : Str) : LexNum :=
   let s := strip s0
   if s = sNaN then .nan else if s = sINF then .pinf else if s = sMINF then .ninf else
@@ -239,7 +243,7 @@ def lexNum (s0 : Str) : LexNum :=
   match parseUnsigned body with
   | some q => .lit (if neg then -q else q) neg
   | none =>
-    if !(s.any isDigit) && !(specialWords.contains (body.map lower)) && !(s.any (fun c => c > 127))
+    if !(s.any isDigit) && !(specialWords.contains (body.map lower)) && !(s.any (fun c => c > 127 && !inertChar c))
     then .invalid else .unsupported
 
 /-- `get_double(str)` (helpers.py:283-295) and `float(str)` on the fragment -/
@@ -302,25 +306,59 @@ def strToHex (s : Str) : Except PyR (List Nat) :=
   | some b => .ok b
   | none => .error .valueErr
 
-/-- `Base64Binary(str)`: only the empty value and the certainly-invalid strings are modelled -/
-def strToB64 (s : Str) : Except PyR (List Nat) :=
-  let v := (strip s).filter (· ≠ 32)
-  if v.isEmpty then .ok []
-  else if !(v.all isB64Char) || v.length % 4 ≠ 0 then .error .valueErr
-  else .error .unsupported
+def b64Val (c : Nat) : Option Nat :=
+  if 65 ≤ c && c ≤ 90 then some (c - 65) else if 97 ≤ c && c ≤ 122 then some (c - 71)
+  else if isDigit c then some (c + 4) else if c = 43 then some 62 else if c = 47 then some 63 else none
 
-/-- `QName.make(str)` with no namespaces (qname.py:31-50, 71-77): a prefixed name → KeyError;
-names made of ASCII letters only are valid NCNames; a name that is empty or starts with a digit,
-'-', '+' or '.' is invalid; other strings are outside the fragment -/
-def strToQName (s : Str) : Except PyR (Str × Str × Str) :=
+/-- canonical base64 (the pattern of binary.py:135-139): quanta of four characters, `=` padding only in
+the last quantum and only after a character whose unused low bits are zero -/
+def b64Decode : Str → Option (List Nat)
+  | [] => some []
+  | [a, b, 61, 61] => do
+    let x ← b64Val a; let y ← b64Val b
+    if y % 16 = 0 then some [x * 4 + y / 16] else none
+  | [a, b, c, 61] => do
+    let x ← b64Val a; let y ← b64Val b; let z ← b64Val c
+    if z % 4 = 0 then some [x * 4 + y / 16, (y % 16) * 16 + z / 4] else none
+  | a :: b :: c :: d :: rest => do
+    let x ← b64Val a; let y ← b64Val b; let z ← b64Val c; let w ← b64Val d
+    let r ← b64Decode rest
+    some ((x * 4 + y / 16) :: ((y % 16) * 16 + z / 4) :: ((z % 4) * 64 + w) :: r)
+  | _ => none
+
+/-- `Base64Binary(str)` (binary.py:42-66, 141-152): white space removed, then the canonical pattern -/
+def strToB64 (s : Str) : Except PyR (List Nat) :=
+  match b64Decode (s.filter fun c => !isWs c) with
+  | some b => .ok b
+  | none => .error .valueErr
+
+/-- NCName start / continuation characters among the characters of the fragment (ASCII, é, U+10000,
+U+FFFF): the `[^\d\W][\w\-.…]*` pattern of qname.py:26-29 and the XML NameStartChar / NameChar classes
+agree on them -/
+def ncStart (c : Nat) : Bool := isAsciiLetter c || c = 95 || c = 233 || c = 65536
+def ncChar (c : Nat) : Bool := ncStart c || isDigit c || c = 45 || c = 46
+
+inductive NcName where
+  | valid (v : Str) | invalid | prefixed | unsupported
+  deriving DecidableEq, Repr
+
+/-- classification of a lexical QName (after `strip`) on the fragment -/
+def ncName (s : Str) : NcName :=
   let v := strip s
-  if s.contains 58 then .error (.exc .keyError)
+  if s.contains 58 then .prefixed
+  else if !(v.all fun c => c < 128 || inertChar c) then .unsupported
   else match v with
-  | [] => .error .valueErr
-  | c :: _ =>
-    if v.all isAsciiLetter then .ok ([], [], v)
-    else if isDigit c || c = 45 || c = 43 || c = 46 then .error .valueErr
-    else .error .unsupported
+  | [] => .invalid
+  | c :: rest => if ncStart c && rest.all ncChar then .valid v else .invalid
+
+/-- `QName.make(str)` with no namespaces (qname.py:31-50, 71-77): a prefixed name → KeyError
+(`namespaces[prefix]`), a valid NCName → QName(None, name), anything else → ValueError -/
+def strToQName (s : Str) : Except PyR (Str × Str × Str) :=
+  match ncName s with
+  | .valid v => .ok ([], [], v)
+  | .invalid => .error .valueErr
+  | .prefixed => .error (.exc .keyError)
+  | .unsupported => .error .unsupported
 
 /-- strings of the fragment that are certainly not date/time/duration lexicals (no 'P', ':', 'T',
 fewer than two '-'): `fromstring` raises ValueError on them; other strings are not modelled -/
@@ -481,8 +519,8 @@ def dunder (m : Mode) (op : Op) (a b : Atom) (fuel : Nat) : PyR :=
       | .ok x => numCmp op (.flt x) b x y
       | .error e => e
     | .dec q =>
-      match strToDecimal s with        -- Decimal(self.value)
-      | .ok x => if x.isNaN && op.isOrd then .exc .invalidOperation else .ok (dCmp op x (.fin q))
+      match strToDouble s with         -- op(get_double(self.value), float(other))
+      | .ok x => .ok (dCmp op x (toD64 q))
       | .error e => e
     | .uri t =>
       match strToUri s with
@@ -636,9 +674,33 @@ def pyFloat : Atom → Except PyR D
   | .ua s => strToDouble s           -- UntypedAtomic.__float__ → get_double
   | _ => .error .typeErr             -- no __float__
 
-/-- one pair of base.py:557-584: the isinstance-ordered dispatch; returns the (possibly converted)
-pair, or TypeError -/
-def iterCheck (a b : Atom) : Except PyR (Atom × Atom) :=
+/-- the comparability classes of the final check of iter_comparison_data: bool, numeric
+(int/float/Decimal), string-like (str/AnyURI), QName, Duration, AbstractBinary, AbstractDateTime -/
+def cmpCategory : Atom → Nat
+  | .bool _ => 0
+  | .int _ | .dec _ | .dbl _ | .flt _ => 1
+  | .str _ | .uri _ => 2
+  | .qn .. => 3
+  | .dur .. | .ymd _ | .dtd _ => 4
+  | .hex _ | .b64 _ => 5
+  | .date _ | .dtm _ | .time _ => 6
+  | .ua _ => 7
+
+/-- `.name` of a binary / date-time class -/
+def kindName : Atom → Nat
+  | .hex _ => 1 | .b64 _ => 2 | .date _ => 3 | .dtm _ => 4 | .time _ => 5 | _ => 0
+
+/-- the check added after the `match` (both operands typed): same class, and for binaries and
+dates/times the same type name -/
+def categoryOK (a b : Atom) : Bool :=
+  match a, b with
+  | .ua _, _ => true
+  | _, .ua _ => true
+  | _, _ => decide (cmpCategory a = cmpCategory b) && decide (kindName a = kindName b)
+
+/-- the `match op1` part of one pair of base.py:557-588: the isinstance-ordered dispatch; returns the
+(possibly converted) pair, or TypeError -/
+def iterMatch (a b : Atom) : Except PyR (Atom × Atom) :=
   match a with
   | .str _ | .uri _ => if isStrLike3 b then .ok (a, b) else .error .typeErr
   | .bool _ =>
@@ -662,6 +724,12 @@ def iterCheck (a b : Atom) : Except PyR (Atom × Atom) :=
     | .ua t => .ok (.str s, .str t)      -- both untyped: `yield str(op1), str(op2)`
     | _ => .ok (a, b)
   | _ => .ok (a, b)
+
+/-- one pair of iter_comparison_data: the dispatch, then the comparability check -/
+def iterCheck (a b : Atom) : Except PyR (Atom × Atom) :=
+  match iterMatch a b with
+  | .error e => .error e
+  | .ok p => if categoryOK a b then .ok p else .error .typeErr
 
 /-- the comparison of one generated pair in the non-compatibility loop -/
 def pairGeneral (m : Mode) (op : Op) (a b : Atom) : R :=
@@ -721,32 +789,44 @@ def mapFloat : List Atom → Except PyR (List D)
       | .error e => .error e
       | .ok ds => .ok (d :: ds)
 
+/-- base.py:547-553 and the shared loop: compatibility mode without a single-boolean operand —
+ordering operators compare `float()` of every item, `=`/`!=` compare the raw Python objects in 1.0
+and go through the type-checking loop in 2.0 compatibility mode -/
+def compatLoop (m : Mode) (op : Op) (l r : List Atom) : R :=
+  if op.isOrd then
+    match mapFloat l with
+    | .error e => liftPy e
+    | .ok ls => match mapFloat r with
+      | .error e => liftPy e
+      | .ok rs => anyPairs (fun a b => liftPy (pyOp m op a b)) (product (ls.map .dbl) (rs.map .dbl))
+  else if m = .v1 then anyPairs (fun a b => liftPy (pyOp m op a b)) (product l r)
+  else anyPairs (pairGeneral m op) (product l r)
+
+/-- the operand is one atomic xs:boolean: `isinstance(values[0], bool) and len(values) == 1` -/
+def singleBool? : List Atom → Option Bool
+  | [.bool x] => some x
+  | _ => none
+
 /-- base.py:516-584 + _xpath1_operators.py:84-102: general comparison of two sequences -/
 def generalCmp (m : Mode) (op : Op) (L Rr : List Item) : R :=
   let l := L.map (atomize m)
   let r := Rr.map (atomize m)
   if m.compat then
-    -- 1. a single boolean operand (IndexError on an empty operand → no pairs → False)
-    match l, r with
-    | [], _ => .ok false
-    | [.bool x], _ =>
-      (match ebvList (r.map .atom) with
-       | .error e => .error e
-       | .ok y => liftPy (pyOp m op (.bool x) (.bool y)))
-    | _ :: _, [] => .ok false
-    | _ :: _, [.bool y] =>
-      (match ebvList (l.map .atom) with
-       | .error e => .error e
-       | .ok x => liftPy (pyOp m op (.bool x) (.bool y)))
-    | _, _ =>
-      if op.isOrd then
-        match mapFloat l with
-        | .error e => liftPy e
-        | .ok ls => match mapFloat r with
-          | .error e => liftPy e
-          | .ok rs => anyPairs (fun a b => liftPy (pyOp m op a b)) (product (ls.map .dbl) (rs.map .dbl))
-      else if m = .v1 then anyPairs (fun a b => liftPy (pyOp m op a b)) (product l r)
-      else anyPairs (pairGeneral m op) (product l r)
+    -- 1. a single boolean operand (`left_values[0]` raises IndexError on an empty operand → no pairs → False)
+    if l.isEmpty then .ok false
+    else match singleBool? l with
+      | some x =>
+        (match ebvList (r.map .atom) with
+         | .error e => .error e
+         | .ok y => liftPy (pyOp m op (.bool x) (.bool y)))
+      | none =>
+        if r.isEmpty then .ok false
+        else match singleBool? r with
+          | some y =>
+            (match ebvList (l.map .atom) with
+             | .error e => .error e
+             | .ok x => liftPy (pyOp m op (.bool x) (.bool y)))
+          | none => compatLoop m op l r
   else anyPairs (pairGeneral m op) (product l r)
 
 /-- Python class identity used by `cls0 is cls1` -/
